@@ -41,5 +41,8 @@ def run(ctx, out):
                         gen_kw=dict(auth=True, ws_share=0.35, batches=0.08, malformed=0.02, timers=False), directed=junk_family() + directed.reauth())
     dcheck.run_more(ctx, out, "C08", "mon_c08", n_quick=120, n_thorough=1500,
                     gen_kw=dict(variant="localonly", ws_share=0.3, timers=False), tag="localonly")
+    # origin classification: the real is_localhost / accept path against Cjet.Accept (every byte of the loopback patterns perturbed)
+    from vlib import accept_tie
+    accept_tie.run_accept_tie(ctx, out)
     out.assumptions += ["crypt(3) is outside the model (the model compares plaintext; the credential file holds SHA-512 crypt hashes of the same passwords)",
                         "log lines are judged on the real syslog calls captured by the harness"]
